@@ -15,6 +15,7 @@ mod lintmon;
 mod sup;
 mod sweep;
 mod tokmon;
+mod wasmapi;
 
 use common::*;
 use std::collections::BTreeMap;
@@ -55,6 +56,8 @@ fn dispatch(prop: &str, ctx: &mut Ctx) {
         "C14" => c14::worker(ctx),
         "C15" => c15::worker(ctx),
         "C16" => c16::worker(ctx),
+        "wasmapi" => wasmapi::worker(ctx),
+        "cli" => wasmapi::cli_worker(ctx),
         "C19" => c19::worker(ctx),
         "C03x" => small::c03x(ctx),
         "C13x" => small::c13x(ctx),
